@@ -282,3 +282,146 @@ def run(chk):
     _owner_rule(chk, prog)
     _grow_rule(chk, prog)
     _tombstone_rule(chk, prog)
+    _index_rule(chk, prog)
+
+
+# ------------------------------------------------------------------------------------------------
+def _len_key(e):
+    """canonical key of a length expression: X->count, tuple/string length of a pointer variable, or text"""
+    e = strip_casts(e)
+    names = e.macro_names()
+    for m, tag in (("janet_tuple_length", "tuplen"), ("janet_string_length", "strlen"), ("janet_struct_length", "structlen")):
+        if m in names:
+            for x in e.walk():
+                if x.k == "ref" and x.d.get("d") in ("var", "parm"):
+                    return "%s:%s" % (tag, x.name)
+    return e.text()
+
+
+def _index_rule(chk, prog):
+    rule = "C04-INDEX"
+    chk.rule(rule, "value.c accessors: every subscript of array/buffer/tuple/string storage is dominated by 0 <= i and i < length")
+    tu = prog.tus["value.c"]
+    total = 0
+    for fn in tu.funcs.values():
+        # container pointer locals
+        kinds = {}
+        for n in fn.nodes:
+            if n.k == "vardecl":
+                t = (n.t or "").replace("const ", "").replace(" ", "")
+                if t in ("JanetArray*", "JanetBuffer*"):
+                    kinds[n.name] = "rec"
+                elif t == "Janet*" and n.kids and "janet_unwrap_tuple" in strip_casts(n.kids[0]).macro_names() + [strip_casts(n.kids[0]).callee or ""]:
+                    kinds[n.name] = "tuple"
+                elif t == "uint8_t*" and n.kids and any(m in ("janet_unwrap_string", "janet_unwrap_symbol", "janet_unwrap_keyword")
+                                                      for m in strip_casts(n.kids[0]).macro_names() + [strip_casts(n.kids[0]).callee or ""]):
+                    kinds[n.name] = "string"
+        sites = []
+        for n in fn.nodes:
+            if n.k != "sub":
+                continue
+            b = strip_casts(n.kids[0])
+            idx = strip_casts(n.kids[1])
+            if idx.v is not None:
+                continue
+            if b.k == "mem" and b.field == "data" and b.rec in ("JanetArray", "JanetBuffer") and is_ref(strip_casts(b.kids[0])):
+                sites.append((n, idx, strip_casts(b.kids[0]).name + "->count"))
+            elif b.k == "ref" and kinds.get(b.name) == "tuple":
+                sites.append((n, idx, "tuplen:" + b.name))
+            elif b.k == "ref" and kinds.get(b.name) == "string":
+                sites.append((n, idx, "strlen:" + b.name))
+        if not sites:
+            continue
+        chk.analysed(fn)
+        # locals that hold a length: len = janet_tuple_length(tuple)
+        len_alias = {}
+        for n in fn.nodes:
+            if n.k == "vardecl" and n.kids:
+                k = _len_key(n.kids[0])
+                if k.startswith(("tuplen:", "strlen:")) or k.endswith("->count"):
+                    len_alias[n.name] = k
+        unsigned_vars = set(n.name for n in fn.nodes if n.k == "vardecl" and (n.t or "").startswith(("uint", "size_t", "unsigned")))
+
+        def transfer(facts, n):
+            tgt = None
+            if n.k == "vardecl":
+                tgt = n.name
+                src = strip_casts(n.kids[0]) if n.kids else None
+            elif n.k == "asg" and is_ref(n.kids[0]):
+                tgt = n.kids[0].name
+                src = strip_casts(n.kids[1]) if n.op == "=" else None
+            elif n.k == "un" and n.op in ("pre++", "post++", "pre--", "post--") and is_ref(n.kids[0]):
+                tgt, src = n.kids[0].name, None
+            if tgt is not None:
+                facts = frozenset(f for f in facts if f[1] != tgt and not (len(f) > 2 and f[2].endswith(":" + tgt)))
+                if src is not None and src.k == "call" and src.callee == "getter_checkint" and len(src.args) >= 3:
+                    k3 = _len_key(src.args[2])
+                    facts = facts | frozenset([("ge0", tgt), ("lt", tgt, len_alias.get(k3, k3))])
+                return facts
+            if n.k == "call" and n.callee in ("janet_array_setcount", "janet_buffer_setcount", "janet_array_ensure", "janet_buffer_ensure") and len(n.args) >= 2:
+                # setcount(X, i + 1) makes i < X->count
+                o = strip_casts(n.args[0])
+                a = strip_casts(n.args[1])
+                if n.callee.endswith("setcount") and a.k == "bin" and a.op == "+" and a.kids[1].v == 1 and is_ref(strip_casts(a.kids[0])):
+                    facts = facts | frozenset([("lt", strip_casts(a.kids[0]).name, o.text() + "->count")])
+                else:
+                    # the count may have changed: forget comparisons against it
+                    facts = frozenset(f for f in facts if not (f[0] == "lt" and f[2] == o.text() + "->count"))
+            return facts
+
+        def edge(facts, blk, succ, cond, truth):
+            if cond is None:
+                return facts
+            c = flow.compare_of(cond, truth)
+            if c is None or c[2] is None:
+                return facts
+            l, op, r = strip_casts(c[0]), c[1], strip_casts(c[2])
+            if r.k == "ref" and l.k != "ref":
+                l, r = r, l
+                op = {"<": ">", ">": "<", "<=": ">=", ">=": "<=", "==": "==", "!=": "!="}[op]
+            if l.k != "ref":
+                return facts
+            if r.v is not None:
+                if (op == ">=" and r.v >= 0) or (op == ">" and r.v >= -1) or (op == "==" and r.v >= 0):
+                    facts = facts | frozenset([("ge0", l.name)])
+                return facts
+            if op == "<":
+                k4 = _len_key(c[2] if strip_casts(c[2]) is r else c[0])
+                return facts | frozenset([("lt", l.name, len_alias.get(k4, k4))])
+            return facts
+
+        IN, OUT, T = flow.forward_paths(fn, frozenset(), transfer, edge)
+        ids = {s[0].id: s for s in sites}
+        for b, S in IN.items():
+            for n in fn.blocks[b].elems:
+                if n.id in ids:
+                    node, idx, key = ids[n.id]
+                    total += 1
+                    chk.instance(rule)
+                    if idx.k == "call" and idx.callee == "getter_checkint" and len(idx.args) >= 3:
+                        k2 = _len_key(idx.args[2])
+                        k2 = len_alias.get(k2, k2)
+                        if k2 == key:
+                            chk.ok(rule, "%s: %s indexed by getter_checkint(..., %s)" % (fn.name, n.text()[:30], key))
+                        else:
+                            chk.violation(rule, "value.c", fn.name, n.text()[:40], n.loc,
+                                          "index is range-checked against %s but the storage is %s long" % (k2, key))
+                    elif idx.k != "ref":
+                        chk.violation(rule, "value.c", fn.name, n.text()[:40], n.loc, "index expression `%s` is not a checked variable" % idx.text())
+                    else:
+                        v = idx.name
+                        ge0 = v in unsigned_vars or all(("ge0", v) in f for f in S)
+                        lt = all(("lt", v, key) in f for f in S)
+                        if ge0 and lt:
+                            chk.ok(rule, "%s: %s with 0 <= %s < %s" % (fn.name, n.text(), v, key))
+                        else:
+                            miss = []
+                            if not ge0:
+                                miss.append("0 <= %s" % v)
+                            if not lt:
+                                miss.append("%s < %s" % (v, key))
+                            chk.violation(rule, "value.c", fn.name, n.text()[:40], n.loc,
+                                          "`%s` is reached on a path where %s has not been established" % (n.text(), " and ".join(miss)))
+                S = T(S, n)
+    if total < 12:
+        raise AnalysisBroken("value.c: only %d variable subscripts of container storage analysed" % total)
